@@ -418,4 +418,9 @@ def run(repo, tier):
         ('photutils.segmentation.core.SegmentationImage._geo_polygons', 'stmt', "polygons = list(shapes(self.data.astype('int32'), connectivity=8))",
          'polygon outlines traced with the 8-connectivity that detect_sources uses by default (one outline per 8-connected region)'),
     ])
+    apply_specs(repo, res, [
+        ('photutils.segmentation.core.SegmentationImage.relabel_consecutive', 'test',
+         '(self.labels[0] == start_label) and (self.labels[-1] - self.labels[0] + 1) == self.nlabels',
+         'nothing to do only if the labels are consecutive AND start at start_label'),
+    ])
     return res
